@@ -9,9 +9,12 @@
       distance on the sphere) preserves positive semi-definiteness of all finite matrices.
   (3) bounds: a PSD function satisfies `|ρ(r)| ≤ ρ(0)`.
   (4) families proved end to end: Gaussian (every dimension), Rational … see below.
+  (6) the TPL classes as coded (truncation scales = rescaled lengths, two-term correlation) are the
+      normalised superposition with non-negative weights that integrate to one; TPLGaussian end to end.
   `litValid ⇒ PSD` for the remaining families is classical analysis that is not in Mathlib (trusted).
 -/
 import GSV.Model.Validity
+import GSV.RealInst
 import GSV.Lemmas.Psd
 import Mathlib.Tactic.Linarith
 import Mathlib.Tactic.NormNum
@@ -21,6 +24,7 @@ import Mathlib.Analysis.InnerProductSpace.ProdL2
 import Mathlib.Geometry.Euclidean.Angle.Unoriented.Basic
 import Mathlib.Analysis.SpecialFunctions.Gamma.Basic
 import Mathlib.Analysis.SpecialFunctions.ImproperIntegrals
+import Mathlib.Analysis.SpecialFunctions.Integrals.Basic
 import Mathlib.Analysis.SpecialFunctions.Integrability.Basic
 import Mathlib.MeasureTheory.Measure.Lebesgue.Basic
 import Mathlib.MeasureTheory.Constructions.BorelSpace.Basic
@@ -778,6 +782,227 @@ example (r : EuclideanSpace ℝ (Fin 3)) : -1 ≤ Real.exp (-(‖r‖ ^ 2)) ∧ 
   cor_mem_Icc (gaussian_psd (V := EuclideanSpace ℝ (Fin 3))) (by simp) r
 
 end endtoend
+
+/-! ## (6) the TPL classes as coded: rescaled truncation scales, two-term form = normalised superposition
+
+`GSV.Model.Validity.tplScales / tplCor / tplVarFactor` model which lengths (`len_low / rescale`,
+`(len_low + len_scale) / rescale`, the `isclose` snap) and which weights `TPL*.correlation` combines the two
+untruncated terms with; the correspondence harness compares them with the real classes for every `rescale`. -/
+
+section tplmodel
+open MeasureTheory Set
+
+/-- the `len_low = 0` TPL model at upper scale `ℓ` with mode profile `φ`: what `tplstable_cor(r, ℓ, H, α)` stands for
+    (`φ(h) = exp(−h^α)`), `2H/ℓ^{2H} ∫₀^ℓ λ^{2H−1} φ(r/λ) dλ` -/
+noncomputable def tplMode (φ : ℝ → ℝ) (H ℓ r : ℝ) : ℝ :=
+  2 * H / ℓ ^ (2 * H) * ∫ lam in Ioc (0:ℝ) ℓ, lam ^ (2 * H - 1) * φ (lam⁻¹ * r)
+
+/-- the normalised superposition weight `w(λ) = 2H λ^{2H−1} / (up^{2H} − lo^{2H})` on `(lo, up]` -/
+noncomputable def tplDensity (H lo up lam : ℝ) : ℝ := 2 * H * lam ^ (2 * H - 1) / (up ^ (2 * H) - lo ^ (2 * H))
+
+theorem tpl_rpow_lt {H lo up : ℝ} (hH : 0 < H) (hlo : 0 ≤ lo) (hlt : lo < up) : lo ^ (2 * H) < up ^ (2 * H) :=
+  Real.rpow_lt_rpow hlo hlt (by linarith)
+
+/-- the weights are non-negative on the superposition interval -/
+theorem tplDensity_nonneg {H lo up lam : ℝ} (hH : 0 < H) (hlo : 0 ≤ lo) (hlt : lo < up) (hlam : 0 ≤ lam) :
+    0 ≤ tplDensity H lo up lam := by
+  unfold tplDensity
+  have := tpl_rpow_lt hH hlo hlt
+  have h1 : 0 ≤ lam ^ (2 * H - 1) := Real.rpow_nonneg hlam _
+  apply div_nonneg (by positivity) (by linarith)
+
+/-- `∫_{lo}^{up} λ^{2H−1} dλ = (up^{2H} − lo^{2H}) / (2H)` (= `TPLCovModel.var_factor`) -/
+theorem tpl_integral_rpow {H lo up : ℝ} (hH : 0 < H) (hle : lo ≤ up) :
+    ∫ lam in Ioc lo up, lam ^ (2 * H - 1) = (up ^ (2 * H) - lo ^ (2 * H)) / (2 * H) := by
+  rw [← intervalIntegral.integral_of_le hle, integral_rpow (Or.inl (by linarith))]
+  congr 2 <;> ring_nf
+
+/-- … and they integrate to one: the TPL correlation is a *normalised* mixture -/
+theorem tplDensity_integral {H lo up : ℝ} (hH : 0 < H) (hlo : 0 ≤ lo) (hlt : lo < up) :
+    ∫ lam in Ioc lo up, tplDensity H lo up lam = 1 := by
+  have hd := tpl_rpow_lt hH hlo hlt
+  have : (fun lam => tplDensity H lo up lam)
+      = fun lam => 2 * H / (up ^ (2 * H) - lo ^ (2 * H)) * lam ^ (2 * H - 1) := by
+    funext lam; unfold tplDensity; ring
+  rw [this, integral_const_mul, tpl_integral_rpow hH hlt.le]
+  have h1 : up ^ (2 * H) - lo ^ (2 * H) ≠ 0 := by linarith
+  field_simp
+
+/-- **Two-term form = superposition.**  What `TPL*.correlation` computes from the two untruncated models at the
+    scales `lo < up`, `(up^{2H} T_up(r) − lo^{2H} T_lo(r)) / (up^{2H} − lo^{2H})`, is the normalised
+    superposition of the modes `φ(r/λ)` over `λ ∈ (lo, up]` with the non-negative weight `tplDensity`. -/
+theorem tplCor_eq_mixture (φ : ℝ → ℝ) {H lo up : ℝ} (hH : 0 < H) (hlo : 0 < lo) (hlt : lo < up) (r : ℝ)
+    (hint : IntegrableOn (fun lam : ℝ => lam ^ (2 * H - 1) * φ (lam⁻¹ * r)) (Ioc 0 up)) :
+    tplCor ⟨lo, up, false⟩ H (tplMode φ H up r) (tplMode φ H lo r)
+      = ∫ lam in Ioc lo up, tplDensity H lo up lam * φ (lam⁻¹ * r) := by
+  have hd := tpl_rpow_lt hH hlo.le hlt
+  have ha : 0 < up ^ (2 * H) := Real.rpow_pos_of_pos (hlo.trans hlt) _
+  have hb : 0 < lo ^ (2 * H) := Real.rpow_pos_of_pos hlo _
+  have hsplit : Ioc (0:ℝ) lo ∪ Ioc lo up = Ioc 0 up := Ioc_union_Ioc_eq_Ioc hlo.le hlt.le
+  have hI1 : IntegrableOn (fun lam : ℝ => lam ^ (2 * H - 1) * φ (lam⁻¹ * r)) (Ioc 0 lo) :=
+    hint.mono_set (Ioc_subset_Ioc_right hlt.le)
+  have hI2 : IntegrableOn (fun lam : ℝ => lam ^ (2 * H - 1) * φ (lam⁻¹ * r)) (Ioc lo up) :=
+    hint.mono_set (Ioc_subset_Ioc_left hlo.le)
+  have hadd : ∫ lam in Ioc (0:ℝ) up, lam ^ (2 * H - 1) * φ (lam⁻¹ * r)
+      = (∫ lam in Ioc (0:ℝ) lo, lam ^ (2 * H - 1) * φ (lam⁻¹ * r))
+        + ∫ lam in Ioc lo up, lam ^ (2 * H - 1) * φ (lam⁻¹ * r) := by
+    rw [← hsplit]
+    exact setIntegral_union (Ioc_disjoint_Ioc_of_le le_rfl) measurableSet_Ioc hI1 hI2
+  have hrhs : (fun lam => tplDensity H lo up lam * φ (lam⁻¹ * r))
+      = fun lam => 2 * H / (up ^ (2 * H) - lo ^ (2 * H)) * (lam ^ (2 * H - 1) * φ (lam⁻¹ * r)) := by
+    funext lam; unfold tplDensity; ring
+  rw [hrhs, integral_const_mul]
+  simp only [tplCor, tplMode, rpow_real, Bool.false_eq_true, if_false]
+  push_cast
+  rw [hadd]
+  have h1 : up ^ (2 * H) - lo ^ (2 * H) ≠ 0 := by linarith
+  field_simp
+  ring
+
+/-- the untruncated model is the superposition over `(0, ℓ]` -/
+theorem tplMode_eq_mixture (φ : ℝ → ℝ) {H ℓ : ℝ} (hH : 0 < H) (r : ℝ) :
+    tplMode φ H ℓ r = ∫ lam in Ioc (0:ℝ) ℓ, tplDensity H 0 ℓ lam * φ (lam⁻¹ * r) := by
+  have hrhs : (fun lam => tplDensity H 0 ℓ lam * φ (lam⁻¹ * r))
+      = fun lam => 2 * H / ℓ ^ (2 * H) * (lam ^ (2 * H - 1) * φ (lam⁻¹ * r)) := by
+    funext lam; unfold tplDensity
+    rw [Real.zero_rpow (by linarith : 2 * H ≠ 0), sub_zero]; ring
+  rw [hrhs, integral_const_mul, tplMode]
+
+/-- the scales chosen by the code are the *rescaled* lengths and are ordered `0 ≤ lo < up` -/
+theorem tplScales_spec {lenScale lenLow rescale : ℝ} (hls : 0 < lenScale) (hll : 0 ≤ lenLow) (hrs : 0 < rescale) :
+    let s := tplScales lenScale lenLow rescale
+    (s.snap = true → s.lo = 0 ∧ s.up = lenScale / rescale ∧ lenLow / rescale ≤ 1e-8) ∧
+    (s.snap = false → s.lo = lenLow / rescale ∧ s.up = (lenLow + lenScale) / rescale ∧ 0 < s.lo) ∧
+    0 ≤ s.lo ∧ s.lo < s.up := by
+  have h0 : 0 ≤ lenLow / rescale := div_nonneg hll hrs.le
+  have hup : 0 < lenScale / rescale := div_pos hls hrs
+  simp only [tplScales, fabs_real, abs_of_nonneg h0]
+  split_ifs with hc
+  · refine ⟨fun _ => ⟨by simp, rfl, hc⟩, fun h => by simp at h, by simp, by simpa using hup⟩
+  · have hpos : 0 < lenLow / rescale := by
+      rw [not_le] at hc
+      exact lt_trans (by norm_num) hc
+    refine ⟨fun h => by simp at h, fun _ => ⟨rfl, rfl, hpos⟩, h0, ?_⟩
+    show lenLow / rescale < (lenLow + lenScale) / rescale
+    rw [div_lt_div_iff_of_pos_right hrs]; linarith
+
+/-- **The correlation of a TPL class is the documented normalised mixture at the rescaled scales** — for every
+    `len_scale > 0`, `len_low ≥ 0`, `rescale > 0`, `H > 0` and mode profile `φ`:
+    `correlation(r) = ∫_{s.lo}^{s.up} w(λ) φ(r/λ) dλ` with `w = tplDensity ≥ 0`, `∫ w = 1`
+    (`tplDensity_nonneg`, `tplDensity_integral`), `s = tplScales len_scale len_low rescale`. -/
+theorem tpl_model_cor_eq_mixture (φ : ℝ → ℝ) {lenScale lenLow rescale H : ℝ} (hls : 0 < lenScale)
+    (hll : 0 ≤ lenLow) (hrs : 0 < rescale) (hH : 0 < H) (r : ℝ)
+    (hint : IntegrableOn (fun lam : ℝ => lam ^ (2 * H - 1) * φ (lam⁻¹ * r))
+      (Ioc 0 (tplScales lenScale lenLow rescale).up)) :
+    let s := tplScales lenScale lenLow rescale
+    tplCor s H (tplMode φ H s.up r) (tplMode φ H s.lo r)
+      = ∫ lam in Ioc s.lo s.up, tplDensity H s.lo s.up lam * φ (lam⁻¹ * r) := by
+  intro s
+  obtain ⟨h1, h2, h3, h4⟩ := tplScales_spec hls hll hrs
+  cases hs : s.snap
+  · obtain ⟨-, -, hpos⟩ := h2 hs
+    have := tplCor_eq_mixture φ hH hpos h4 r hint
+    have hs' : s = ⟨s.lo, s.up, false⟩ := by rw [← hs]
+    rw [hs']; exact this
+  · obtain ⟨hlo, -, -⟩ := h1 hs
+    have : tplCor s H (tplMode φ H s.up r) (tplMode φ H s.lo r) = tplMode φ H s.up r := by
+      simp [tplCor, hs]
+    rw [this, hlo]
+    exact tplMode_eq_mixture φ hH r
+
+/-- validity of the model correlation wherever the mode is valid -/
+theorem tpl_model_psd_of_mode {φ : ℝ → ℝ} (h : IsPSDRadial V φ) {lenScale lenLow rescale H : ℝ}
+    (hls : 0 < lenScale) (hll : 0 ≤ lenLow) (hrs : 0 < rescale) (hH : 0 < H)
+    (hint : ∀ r : ℝ, 0 ≤ r → IntegrableOn (fun lam : ℝ => lam ^ (2 * H - 1) * φ (lam⁻¹ * r))
+      (Ioc 0 (tplScales lenScale lenLow rescale).up)) :
+    IsPSDRadial V fun r =>
+      tplCor (tplScales lenScale lenLow rescale) H
+        (tplMode φ H (tplScales lenScale lenLow rescale).up r)
+        (tplMode φ H (tplScales lenScale lenLow rescale).lo r) := by
+  obtain ⟨-, -, h3, h4⟩ := tplScales_spec hls hll hrs
+  set s := tplScales lenScale lenLow rescale with hs
+  have hd := tpl_rpow_lt hH h3 h4
+  have hbase := tpl_psd_of_mode (V := V) h H s.lo s.up h3 fun r hr =>
+    (hint r hr).mono_set (Ioc_subset_Ioc_left h3)
+  have hsc := psd_scale hbase (var := 2 * H / (s.up ^ (2 * H) - s.lo ^ (2 * H)))
+    (div_nonneg (by positivity) (by linarith))
+  unfold IsPSDRadial at hsc ⊢
+  convert hsc using 3 with v
+  have := tpl_model_cor_eq_mixture φ hls hll hrs hH ‖v‖ (hint _ (norm_nonneg _))
+  simp only at this
+  rw [← hs] at this
+  show tplCor s H (tplMode φ H s.up ‖v‖) (tplMode φ H s.lo ‖v‖)
+    = 2 * H / (s.up ^ (2 * H) - s.lo ^ (2 * H)) * ∫ lam in Ioc s.lo s.up, lam ^ (2 * H - 1) * φ (lam⁻¹ * ‖v‖)
+  rw [this, ← integral_const_mul]
+  congr 1
+  funext lam; unfold tplDensity; ring
+
+theorem tpl_gaussian_integrableOn (H up r : ℝ) (hH : 0 < H) (hup : 0 ≤ up) :
+    IntegrableOn (fun lam : ℝ => lam ^ (2 * H - 1) * Real.exp (-((lam⁻¹ * r) ^ 2))) (Ioc 0 up) := by
+  have hi : IntegrableOn (fun lam : ℝ => lam ^ (2 * H - 1)) (Ioc 0 up) :=
+    (intervalIntegrable_iff_integrableOn_Ioc_of_le hup).1
+      (intervalIntegral.intervalIntegrable_rpow' (by linarith))
+  refine Integrable.mul_bdd (c := 1) hi ?_ (Filter.Eventually.of_forall fun t => ?_)
+  · refine Measurable.aestronglyMeasurable ?_
+    exact Real.measurable_exp.comp ((measurable_inv.mul measurable_const).pow_const 2).neg
+  · rw [Real.norm_eq_abs, abs_of_pos (Real.exp_pos _), Real.exp_le_one_iff]
+    exact neg_nonpos.2 (sq_nonneg _)
+
+/-- **TPLGaussian, the model as coded** (scales = rescaled lengths, normalised two-term form): valid in every
+    dimension for `len_scale > 0`, `len_low ≥ 0`, every `rescale > 0`, `H > 0`. -/
+theorem tpl_gaussian_model_psd {lenScale lenLow rescale H : ℝ}
+    (hls : 0 < lenScale) (hll : 0 ≤ lenLow) (hrs : 0 < rescale) (hH : 0 < H) :
+    IsPSDRadial V fun r =>
+      tplCor (tplScales lenScale lenLow rescale) H
+        (tplMode (fun h => Real.exp (-(h ^ 2))) H (tplScales lenScale lenLow rescale).up r)
+        (tplMode (fun h => Real.exp (-(h ^ 2))) H (tplScales lenScale lenLow rescale).lo r) := by
+  obtain ⟨-, -, h3, h4⟩ := tplScales_spec hls hll hrs
+  exact tpl_model_psd_of_mode (gaussian_psd (V := V)) hls hll hrs hH fun r _ =>
+    tpl_gaussian_integrableOn H _ r hH (h3.trans h4.le)
+
+/-- `TPLCovModel.var_factor` is the total (unnormalised) weight `∫ λ^{2H−1} dλ` over the rescaled truncation
+    interval — the normalisation of `tplDensity` -/
+theorem tplVarFactor_eq_integral {lenScale lenLow rescale H : ℝ} (hls : 0 < lenScale) (hrs : 0 < rescale)
+    (hH : 0 < H) :
+    tplVarFactor lenScale lenLow rescale H
+      = ∫ lam in Ioc (lenLow / rescale) ((lenLow + lenScale) / rescale), lam ^ (2 * H - 1) := by
+  have hle : lenLow / rescale ≤ (lenLow + lenScale) / rescale := by
+    rw [div_le_div_iff_of_pos_right hrs]; linarith
+  rw [tpl_integral_rpow hH hle]
+  simp only [tplVarFactor, rpow_real]
+  push_cast
+  rfl
+
+/-- non-trivial instance: `TPLGaussian(len_scale=9, len_low=1, rescale=2)` works with the scales `(1/2, 5]` -/
+example : (tplScales (9:ℝ) 1 2).snap = false ∧ (tplScales (9:ℝ) 1 2).lo = 1 / 2 ∧ (tplScales (9:ℝ) 1 2).up = 5 := by
+  have h : ¬ (|(1:ℝ) / 2| ≤ 1e-8) := by norm_num
+  simp only [tplScales, fabs_real, h, if_false]
+  norm_num
+
+end tplmodel
+
+section tplendtoend
+open Classical
+
+/-- **TPLGaussian, end to end**: accepted by the code ⇒ for every `rescale > 0` and every anisotropy/rotation
+    matrix the covariance built from the coded two-term correlation at the rescaled scales is PSD on `ℝ^d`. -/
+theorem accepted_tplgaussian_cov_psd (d : ℕ) (p : Params ℝ) (h : accepts .TPLGaussian d p = true) {s : ℝ}
+    (hs : 0 < s) (A : EuclideanSpace ℝ (Fin d) →ₗ[ℝ] EuclideanSpace ℝ (Fin d)) :
+    IsPSDFun fun r : EuclideanSpace ℝ (Fin d) =>
+      p.var * tplCor (tplScales p.lenScale p.lenLow s) p.hurst
+          (tplMode (fun h => Real.exp (-(h ^ 2))) p.hurst (tplScales p.lenScale p.lenLow s).up ‖A r‖)
+          (tplMode (fun h => Real.exp (-(h ^ 2))) p.hurst (tplScales p.lenScale p.lenLow s).lo ‖A r‖)
+        + p.nugget * (if A r = 0 then 1 else 0) := by
+  obtain ⟨hv, hl, hn, hsh⟩ := validity_table .TPLGaussian d p h
+  have hsh' : 0 < p.hurst ∧ p.hurst < 1 ∧ 0 ≤ p.lenLow := by simpa [litValidShape] using hsh
+  have hφ := tpl_gaussian_model_psd (V := EuclideanSpace ℝ (Fin d)) (lenScale := p.lenScale)
+    (lenLow := p.lenLow) (rescale := s) (H := p.hurst) (by simpa using hl) hsh'.2.2 hs hsh'.1
+  have := psd_cov_spatial hφ A (var := p.var) (nugget := p.nugget) (ℓ := 1)
+    (by simpa using hv) (by simpa using hn) one_pos
+  simp only [div_one] at this
+  exact this
+
+end tplendtoend
 
 end families
 
